@@ -233,7 +233,7 @@ func checkC16(c *Ctx) {
 		slice := c.P.FuncObj("sort", "Slice")
 		srt := c.P.FuncObj("sort", "Sort")
 		n := 0
-		for _, call := range core.CallsTo(fh, stable, slice, srt) {
+		for _, call := range c.callsToDeep(fh, 3, stable, slice, srt) {
 			n++
 			var less *ssa.Function
 			if lf := closureArg(call.Arg(1)); lf != nil {
@@ -254,7 +254,7 @@ func checkC16(c *Ctx) {
 			}
 		}
 		search := c.P.FuncObj("sort", "Search")
-		for _, call := range core.CallsTo(auth, search) {
+		for _, call := range c.callsToDeep(auth, 3, search) {
 			if pf := closureArg(call.Arg(1)); pf != nil {
 				predFields = append(predFields, fieldsRead(pf, isRec)...)
 			}
@@ -276,19 +276,22 @@ func checkC16(c *Ctx) {
 	r6 := c.R.Rule("C16-R6", "the credential file reader accepts records of differing length (csv.Reader.FieldsPerRecord is set negative before ReadAll) when the loader distinguishes several record lengths", "E11 constant store dominating the read", 1)
 	if fh != nil {
 		lens := map[int64]bool{}
-		for _, b := range fh.Blocks {
-			if iff, ok := b.Instrs[len(b.Instrs)-1].(*ssa.If); ok {
-				if bo, ok := iff.Cond.(*ssa.BinOp); ok && bo.Op == token.EQL {
-					if cl, ok := bo.X.(*ssa.Call); ok && core.CallOf(cl).Builtin() == "len" {
-						if k, ok := constInt(bo.Y); ok {
-							lens[k] = true
+		deep := c.funcsDeep(fh, 3)
+		for _, f := range deep {
+			for _, b := range f.Blocks {
+				if iff, ok := b.Instrs[len(b.Instrs)-1].(*ssa.If); ok {
+					if bo, ok := iff.Cond.(*ssa.BinOp); ok && bo.Op == token.EQL {
+						if cl, ok := bo.X.(*ssa.Call); ok && core.CallOf(cl).Builtin() == "len" {
+							if k, ok := constInt(bo.Y); ok {
+								lens[k] = true
+							}
 						}
 					}
 				}
 			}
 		}
 		var readAll *core.Call
-		for _, cl := range core.CallsIn(fh) {
+		for _, cl := range c.callsDeep(fh, 3) {
 			if cl.Obj != nil && cl.Obj.Name() == "ReadAll" && cl.Obj.Pkg() != nil && cl.Obj.Pkg().Path() == "encoding/csv" {
 				readAll = cl
 			}
@@ -298,12 +301,36 @@ func checkC16(c *Ctx) {
 				r6.OK("record lengths accepted by auth.FileHandler", c.where(fh, fh), "a single record length is handled; the default field-count check is consistent with it")
 			} else {
 				ok := false
-				for _, b := range fh.Blocks {
-					for _, in := range b.Instrs {
-						if st, isSt := in.(*ssa.Store); isSt {
-							if fa, isFA := st.Addr.(*ssa.FieldAddr); isFA && fieldNameOf(fa.X.Type(), fa.Field) == "FieldsPerRecord" && core.Dominates(st, readAll.Instr) {
-								if k, isK := constInt(st.Val); isK && k < 0 {
+				rf := readAll.Instr.Parent()
+				for _, f := range deep {
+					for _, b := range f.Blocks {
+						for _, in := range b.Instrs {
+							st, isSt := in.(*ssa.Store)
+							if !isSt {
+								continue
+							}
+							fa, isFA := st.Addr.(*ssa.FieldAddr)
+							if !isFA || fieldNameOf(fa.X.Type(), fa.Field) != "FieldsPerRecord" {
+								continue
+							}
+							if k, isK := constInt(st.Val); !isK || k >= 0 {
+								continue
+							}
+							switch {
+							case f == rf:
+								ok = ok || core.Dominates(st, readAll.Instr)
+							default:
+								// the reader is configured by a helper: the reader read from comes out of that helper, or the helper runs before the read
+								if len(readAll.Common.Args) > 0 && depReaches(readAll.Common.Args[0], func(x ssa.Value) bool {
+									cv, isC := x.(*ssa.Call)
+									return isC && cv.Call.StaticCallee() == f
+								}) {
 									ok = true
+								}
+								for _, cl := range core.CallsIn(rf) {
+									if cl.Static == f && core.Dominates(cl.Instr, readAll.Instr) {
+										ok = true
+									}
 								}
 							}
 						}
@@ -397,7 +424,7 @@ func (c *Ctx) checkAuthHandlers(authPkg string) {
 			continue
 		}
 		c.R.Fn(c.fname(f))
-		paths, err := core.EnumPaths(f, core.PathOpts{})
+		paths, err := c.pathsInlinedPkg(f, core.PathOpts{}, nil)
 		if err != nil {
 			ru.Undecided("paths of auth."+hn, c.where(f, f), err.Error())
 			continue
@@ -416,29 +443,20 @@ func (c *Ctx) checkAuthHandlers(authPkg string) {
 			}
 			okPaths++
 			userOK, passOK := false, false
-			for _, cd := range p.Conds {
-				a := orderAtom(cd.V, false)
-				if a.kind != "equality" {
-					// order atoms of the search post-check do not count
+			var heldEq []*ssa.BinOp
+			for _, d := range decisions(p) {
+				bo, val := resolvedEquality(p, d)
+				if bo == nil || !val {
 					continue
 				}
-				held := cd.Val
-				if bo, ok := cd.V.(*ssa.BinOp); ok && bo.Op == token.NEQ {
-					held = !cd.Val
-				}
-				// cd.Val is the value of the positive term; the positive term of a NEQ is the equality itself
-				_ = held
-				eqHeld := cd.Val
-				if !eqHeld {
-					continue
-				}
-				if mix := c.mixesRawCredentials(a.lhs, f) + c.mixesRawCredentials(a.rhs, f); mix != "" {
+				heldEq = append(heldEq, bo)
+				if mix := c.mixesRawCredentials(bo.X, f) + c.mixesRawCredentials(bo.Y, f); mix != "" {
 					bad = "username and password are joined into one value before being fingerprinted and compared (" + mix + "): the join is ambiguous at the boundary, so a different (username, password) pair can be accepted"
 				}
-				if c.mentionsAppField(a.lhs, f, "Username") || c.mentionsAppField(a.rhs, f, "Username") {
+				if c.mentionsAppField(bo.X, f, "Username") || c.mentionsAppField(bo.Y, f, "Username") {
 					userOK = true
 				}
-				if c.mentionsAppField(a.lhs, f, "Password") || c.mentionsAppField(a.rhs, f, "Password") {
+				if c.mentionsAppField(bo.X, f, "Password") || c.mentionsAppField(bo.Y, f, "Password") {
 					passOK = true
 				}
 			}
@@ -459,9 +477,9 @@ func (c *Ctx) checkAuthHandlers(authPkg string) {
 					if dc, ok := def.(*types.Const); ok && constant.StringVal(dc.Val()) == constant.StringVal(k.Value) {
 						okMP = true
 					}
-				} else if strings.Contains(core.Term(mpr), ".MountPoint") {
+				} else if len(recordElems(p, mpr)) > 0 {
 					// field of a record: index must be the index compared on this path
-					okMP = c.sameRecordAsCompared(p, mpr)
+					okMP = c.sameRecordAsCompared(p, mpr, heldEq)
 				}
 				if !okMP {
 					bad = "mount point of the accepted principal is neither the default constant nor the MountPoint field of the record whose hashes were compared: " + short(core.Term(mpr), 100)
@@ -483,46 +501,38 @@ func (c *Ctx) checkAuthHandlers(authPkg string) {
 	}
 }
 
-// mentionsAppField: does v's backward slice inside f read field name of the ApplicationContext parameter?
+// resolvedEquality: the decision, seen through the results of inlined helpers, is an (in)equality test; returns the
+// comparison and whether the equality held on the path.
+func resolvedEquality(p *core.Path, d decided) (*ssa.BinOp, bool) {
+	v, val := p.Resolve(d.Cond), d.Val
+	for {
+		u, ok := v.(*ssa.UnOp)
+		if !ok || u.Op != token.NOT {
+			break
+		}
+		v, val = p.Resolve(u.X), !val
+	}
+	bo, ok := v.(*ssa.BinOp)
+	if !ok || (bo.Op != token.EQL && bo.Op != token.NEQ) {
+		return nil, false
+	}
+	if bo.Op == token.NEQ {
+		val = !val
+	}
+	return bo, val
+}
+
+// mentionsAppField: does v depend on field name of the presented ApplicationContext (through helpers' parameters and results too)?
 func (c *Ctx) mentionsAppField(v ssa.Value, f *ssa.Function, name string) bool {
-	seen := map[ssa.Value]bool{}
-	var walk func(v ssa.Value, d int) bool
-	walk = func(v ssa.Value, d int) bool {
-		if v == nil || seen[v] || d > 30 {
-			return false
-		}
-		seen[v] = true
-		switch x := v.(type) {
+	return depReaches(v, func(x ssa.Value) bool {
+		switch y := x.(type) {
 		case *ssa.FieldAddr:
-			if fieldNameOf(x.X.Type(), x.Field) == name && isNamed(derefT(x.X.Type()), "wasp/auth", "ApplicationContext") {
-				return true
-			}
+			return fieldNameOf(y.X.Type(), y.Field) == name && isNamed(derefT(y.X.Type()), "wasp/auth", "ApplicationContext")
 		case *ssa.Field:
-			if fieldNameOf(x.X.Type(), x.Field) == name && isNamed(x.X.Type(), "wasp/auth", "ApplicationContext") {
-				return true
-			}
-		case *ssa.UnOp:
-			if x.Op == token.MUL {
-				// load of a local: follow stores
-				if a, ok := x.X.(*ssa.Alloc); ok && a.Referrers() != nil {
-					for _, r := range *a.Referrers() {
-						if s, ok := r.(*ssa.Store); ok && s.Addr == ssa.Value(a) && walk(s.Val, d+1) {
-							return true
-						}
-					}
-				}
-			}
-		}
-		if in, ok := v.(ssa.Instruction); ok {
-			for _, op := range in.Operands(nil) {
-				if *op != nil && walk(*op, d+1) {
-					return true
-				}
-			}
+			return fieldNameOf(y.X.Type(), y.Field) == name && isNamed(y.X.Type(), "wasp/auth", "ApplicationContext")
 		}
 		return false
-	}
-	return walk(v, 0)
+	})
 }
 
 func derefT(t types.Type) types.Type {
@@ -568,31 +578,65 @@ func (c *Ctx) principalField(p *core.Path, ret ssa.Value, name string) ssa.Value
 	return found
 }
 
-// sameRecordAsCompared: the record whose MountPoint is returned is indexed like the records compared on this path.
-func (c *Ctx) sameRecordAsCompared(p *core.Path, mp ssa.Value) bool {
-	idxOf := func(v ssa.Value) string {
-		t := core.Term(v)
-		i := strings.LastIndex(t, "[")
-		j := strings.LastIndex(t, "]")
-		if i < 0 || j < i {
-			return ""
+// recordElems: the slice elements (of struct type) v is read out of — field loads, copies through locals and helper parameters.
+func recordElems(p *core.Path, v ssa.Value) []*ssa.IndexAddr {
+	var out []*ssa.IndexAddr
+	seen := map[ssa.Value]bool{}
+	var walk func(v ssa.Value, d int)
+	walk = func(v ssa.Value, d int) {
+		if v == nil || seen[v] || d > 30 {
+			return
 		}
-		return t[:j+1]
+		seen[v] = true
+		switch x := v.(type) {
+		case *ssa.IndexAddr:
+			if _, isStruct := derefT(x.Type()).Underlying().(*types.Struct); isStruct {
+				out = append(out, x)
+			}
+		case *ssa.UnOp:
+			if x.Op == token.MUL {
+				walk(x.X, d+1)
+			}
+		case *ssa.FieldAddr:
+			walk(x.X, d+1)
+		case *ssa.Field:
+			walk(x.X, d+1)
+		case *ssa.Alloc:
+			for _, st := range allStoresTo(x) {
+				walk(st.Val, d+1)
+			}
+		case *ssa.Parameter:
+			if r := p.Resolve(x); r != ssa.Value(x) {
+				walk(r, d+1)
+			} else {
+				for _, a := range callerArgs(x) {
+					walk(a, d+1)
+				}
+			}
+		case *ssa.Phi:
+			if r := p.Resolve(x); r != ssa.Value(x) {
+				walk(r, d+1)
+			}
+		}
 	}
-	want := idxOf(mp)
-	if want == "" {
+	walk(v, 0)
+	return out
+}
+
+// sameRecordAsCompared: the record whose MountPoint is returned is the element (same slice, same index) whose fields were compared on this path.
+func (c *Ctx) sameRecordAsCompared(p *core.Path, mp ssa.Value, heldEq []*ssa.BinOp) bool {
+	mine := recordElems(p, mp)
+	if len(mine) != 1 {
 		return false
 	}
+	sameElem := func(a, b *ssa.IndexAddr) bool {
+		return p.Term(a.X) == p.Term(b.X) && (deepStrip(p.Resolve(a.Index)) == deepStrip(p.Resolve(b.Index)) || p.Term(a.Index) == p.Term(b.Index))
+	}
 	n := 0
-	for _, cd := range p.Conds {
-		a := orderAtom(cd.V, false)
-		if a.kind != "equality" || !cd.Val {
-			continue
-		}
-		for _, side := range []ssa.Value{a.lhs, a.rhs} {
-			t := core.Term(side)
-			if strings.Contains(t, "Hash") && strings.Contains(t, "[") {
-				if idxOf(side) != want {
+	for _, bo := range heldEq {
+		for _, side := range []ssa.Value{bo.X, bo.Y} {
+			for _, e := range recordElems(p, side) {
+				if !sameElem(e, mine[0]) {
 					return false
 				}
 				n++
